@@ -66,7 +66,9 @@ Finish8 == /\ Mode = "C08" /\ out = <<>> /\ hist # <<>>
 \* burst: the released requests all run to their end before accept() is polled again (several ends between two polls)
 \* arrive: the order in which the request streams become visible (a transport need not surface them in id order);
 \* cut: the peer's GOAWAY frame 07 01 00 arrives whole (0) or in two deliveries cut after `cut` bytes, the endpoint running in between
-Scn9x(n, ks, g, rev, burst, arrive, cut) ==
+\* silent: a unidirectional stream of the peer that says nothing ("open") or only the first byte of a two-byte type ("half") is
+\* surfaced BEFORE its control stream;  again: the peer repeats its GOAWAY with the same identifier (RFC 9114 5.2 allows it)
+Scn9y(n, ks, g, rev, burst, arrive, cut, silent, again) ==
                 LET ids == [i \in 1..n |-> 4 * (i - 1)]
                     arr == [i \in 1..n |-> PeerSteps(ks[arrive[i]], ids[arrive[i]])]
                     before == Flat([i \in 1..n |-> IF i <= g THEN arr[i] ELSE <<>>])
@@ -78,13 +80,18 @@ Scn9x(n, ks, g, rev, burst, arrive, cut) ==
                                   \o Flat([j \in 1..n |-> IF order[j] \in pk THEN <<[op |-> "step", task |-> PokeTask(ks[order[j]], ids[order[j]]), no_run |-> TRUE]>> ELSE <<>>])
                                   \o <<[op |-> "run"]>>
                              ELSE Flat([j \in 1..n |-> IF order[j] \in pk THEN <<[op |-> "poke", task |-> PokeTask(ks[order[j]], ids[order[j]])]>> ELSE <<>>])
-                    ga == IF cut = 0 THEN <<Goaway>>
+                    ga0 == IF cut = 0 THEN <<Goaway>>
                           ELSE <<[op |-> "deliver", sid |-> 2, bytes |-> SubSeq(<<7, 1, 0>>, 1, cut)], [op |-> "deliver", sid |-> 2, bytes |-> SubSeq(<<7, 1, 0>>, cut + 1, 3)]>>
+                    ga == IF again THEN ga0 \o <<Goaway>> ELSE ga0
+                    pre == CASE silent = "open" -> <<[op |-> "open_uni", sid |-> 6]>>
+                             [] silent = "half" -> <<[op |-> "deliver", sid |-> 6, bytes |-> <<64>>]>>
+                             [] OTHER -> <<>>
                     \* g = n + 1: the GOAWAY arrives after the held requests were released
-                    steps == IF g = n + 1 THEN Ctl \o before \o pokes \o ga
-                             ELSE Ctl \o before \o ga \o after \o pokes
-                IN [role |-> "server", cfg |-> [grease |-> FALSE], mode |-> "C09", kinds |-> ks, goaway_after |-> g, burst |-> burst, arrive |-> arrive, cut |-> cut,
+                    steps == IF g = n + 1 THEN pre \o Ctl \o before \o pokes \o ga
+                             ELSE pre \o Ctl \o before \o ga \o after \o pokes
+                IN [role |-> "server", cfg |-> [grease |-> FALSE], mode |-> "C09", kinds |-> ks, goaway_after |-> g, burst |-> burst, arrive |-> arrive, cut |-> cut, silent |-> silent, again |-> again,
                     handlers_by_sid |-> [i \in 1..n |-> Handler(ks[i])], default_handler |-> Normal, steps |-> steps]
+Scn9x(n, ks, g, rev, burst, arrive, cut) == Scn9y(n, ks, g, rev, burst, arrive, cut, "no", FALSE)
 Scn9(n, ks, g, rev, burst) == Scn9x(n, ks, g, rev, burst, [i \in 1..n |-> i], 0)
 PokeKinds == {"held", "heldres", "split"}
 Finish9 == /\ Mode = "C09" /\ out = <<>>
@@ -98,6 +105,10 @@ Finish9 == /\ Mode = "C09" /\ out = <<>>
               \* the GOAWAY frame cut into two deliveries
               \/ \E n \in 0..(IF NReq9 > 2 THEN 2 ELSE NReq9) : \E ks \in [1..n -> Kinds], g \in 0..(n + 1), cut \in {1, 2} :
                    out' = Scn9x(n, ks, g, FALSE, FALSE, [i \in 1..n |-> i], cut)
+              \* a silent stream of the peer ahead of its control stream; the GOAWAY repeated with the same identifier
+              \/ \E n \in 0..(IF NReq9 > 2 THEN 2 ELSE NReq9) : \E ks \in [1..n -> Kinds], g \in 0..(n + 1), silent \in {"no", "open", "half"}, again \in BOOLEAN :
+                   /\ (silent # "no" \/ again)
+                   /\ out' = Scn9y(n, ks, g, FALSE, FALSE, [i \in 1..n |-> i], 0, silent, again)
               \* three (four) requests released at once, whatever NReq9 is
               \/ \E n \in {3, 4} : \E ks \in [1..n -> PokeKinds], g \in 0..n, rev \in BOOLEAN :
                    /\ n > NReq9 /\ (n = 4 => (\A i \in 1..n : ks[i] = ks[1]) /\ g \in {0, 4})
